@@ -76,11 +76,22 @@ def ind_scenario(rng, fid, fam, cfg, n, style, twins=("batch",), tf=None, extra=
     st = make_stream(rng, n + extra, style, tf=tf, regular=regular)
     pre, chunks = compositions(rng, n, pre_choices, max_chunk)
     prog = prog_for(pre, chunks)
+    if not tf and not cfg.ctype and rng.random() < 0.12:
+        # the newest candle keeps trading: the caller updates it in place, then refreshes its reading
+        o, h, l, c, v = st[n - 1][1:]
+        c2 = c + rng.choice([1, 2, -1])
+        prog.append(("poke", -1, (o, max(h, c2, o), min(l, c2, o), c2, v + rng.choice([0, 1, 3]))))
+        prog.append(("calculate_index", "", -1, "fresh"))
+        twins = ()
     if reindex:
         # refresh the newest reading the way Hexital.calculate_index() does by default (index -1)
-        prog.append(("calculate_index", "", rng.choice([-1, -1, -2])))
-    return {"id": fid, "fam": fam, "obj": "ind", "inds": [cfg], "stream": st,
-            "prog": prog, "twins": list(twins), "form": form}
+        # (index 0 and its negative twin included: the first candle has no predecessor)
+        prog.append(("calculate_index", "", rng.choice([-1, 0, 0] if tf else [-1, -2, 0, 0, 1, 3, -n])))
+    sc = {"id": fid, "fam": fam, "obj": "ind", "inds": [cfg], "stream": st,
+          "prog": prog, "twins": list(twins), "form": form}
+    if any(x[0] == "poke" for x in prog):
+        sc["mute"] = ["def_shown"]      # the edited candle is no longer the one of the raw stream
+    return sc
 
 
 def hex_scenario(rng, fid, fam, cfgs, n, style, twins=("batch",), hexcfg=None, tf=None, extra=0,
@@ -277,6 +288,18 @@ def fam_disorder(rng, pid, count):
     return out
 
 
+def fam_aware(rng, pid, count, twins=()):
+    """timezone-aware timestamps whose UTC offset is not a multiple of the timeframe: an aware
+    timestamp is an instant, buckets lie on the UTC grid whatever offset it is written with"""
+    out = []
+    for sc in fam_manager(rng, pid, count, units=("H", "D", "T", "H"), fills=(False, True), hexshare=0.2,
+                          twins=twins, tag="w"):
+        sc["form"] = "aware:" + str(rng.choice([330, -300, 60, 345, -210, 570]))
+        sc["id"] = sc["id"].replace("/mgrw/", "/aware/").replace("/hexmgrw/", "/awarehex/").replace("/barew/", "/awarebare/")
+        out.append(sc)
+    return out
+
+
 TZS = ["UTC", "Asia/Kolkata", "Asia/Kathmandu", "America/New_York", "Europe/London",
        "Australia/Lord_Howe", "Pacific/Chatham", "America/St_Johns"]
 
@@ -294,6 +317,9 @@ def decorate(rng, scs):
         if "form" not in sc or sc.get("form") == "candle":
             if rng.random() < 0.35:
                 sc["form"] = rng.choice(FORMS)
+            elif rng.random() < 0.08 and not sc.get("tz") and not sc.get("base"):
+                # timezone-aware timestamps with an offset that is not a multiple of most timeframes
+                sc["form"] = "aware:" + str(rng.choice([330, -300, 60, 345, -210]))
         for c in sc["inds"] + sc.get("late", []):
             if c.timeframe and "_tf_form" not in c.extra and rng.random() < 0.3:
                 c.extra = dict(c.extra, _tf_form=rng.choice(["lower", "enum"]))
@@ -332,7 +358,8 @@ def _scenarios(pid, tier, rng):
     if pid == "C01":
         return (fam_kinds(rng, pid, ALL_KINDS, k(200, 1200), tf_share=0.6)
                 + fam_chain(rng, pid, k(40, 200)) + fam_amorph(rng, pid, k(40, 240))
-                + fam_hexital(rng, pid, k(50, 300), twins=("batch",)))
+                + fam_hexital(rng, pid, k(50, 300), twins=("batch",))
+                + fam_aware(rng, pid, k(24, 150), twins=("batch",)))
     if pid == "C02":
         return (fam_kinds(rng, pid, ALL_KINDS, k(260, 1500), twins=("longer",), tf_share=0.5)
                 + fam_amorph(rng, pid, k(40, 240), twins=("longer",))
@@ -340,7 +367,8 @@ def _scenarios(pid, tier, rng):
                             reverse=True, twins=())
                 + fam_hexital(rng, pid, k(40, 240), twins=("longer",)))
     if pid == "C03":
-        return fam_manager(rng, pid, k(270, 1800)) + fam_disorder(rng, pid, k(30, 200))
+        return (fam_manager(rng, pid, k(250, 1700)) + fam_disorder(rng, pid, k(30, 200))
+                + fam_aware(rng, pid, k(20, 150)))
     if pid == "C12":
         return fam_manager(rng, pid, k(300, 2000), fills=(True,), twins=("batch",))
     if pid == "C11":
@@ -355,7 +383,7 @@ def _scenarios(pid, tier, rng):
                               kinds=("SMA", "EMA", "RSI", "STOCH", "ATR", "MACD", "BBANDS", "OBV"), tag="b"))
     if pid == "C18":
         return (fam_manager(rng, pid, k(240, 1600), tzs=TZS[1:], fills=(False, True), hexshare=0.15)
-                + fam_transitions(rng, pid, k(100, 600)))
+                + fam_transitions(rng, pid, k(100, 600)) + fam_aware(rng, pid, k(20, 150)))
     if pid == "C16":
         return (fam_movement(rng, pid, k(120, 800)) + fam_patterns(rng, pid, k(60, 400))
                 + fam_amorph(rng, pid, k(60, 400)))
@@ -737,7 +765,7 @@ def fam_hexital(rng, pid, count, twins=("standalone",)):
             cfgs = _uniq(cfgs)
         for c in cfgs:
             c.extra = dict(c.extra, _tf_form=rng.choice(["upper", "upper", "lower", "enum"]))
-        fill = bool(base_tf) and rng.random() < 0.3
+        fill = rng.random() < 0.3          # also without a Hexital timeframe: the members inherit it
         ha = rng.random() < 0.2 and not fill
         tfs = [c.timeframe for c in cfgs] + [base_tf]
         secs = sorted(tf_seconds(x) for x in tfs if x)
@@ -747,7 +775,7 @@ def fam_hexital(rng, pid, count, twins=("standalone",)):
             # batch = incremental is not claimed under a lifespan (C15 owns it), and the two open C08
             # findings (K01, K02) are kept inside the C08 check
             life = None
-            if fill and any(c.timeframe and c.timeframe != base_tf for c in cfgs):
+            if fill and base_tf and any(c.timeframe and c.timeframe != base_tf for c in cfgs):
                 fill = False
         hexcfg = {"timeframe": base_tf, "fill": fill, "lifespan": life, "ctype": "HA" if ha else None}
         n = rng.randint(16, 22) if ha else rng.randint(20, 34)   # HA values double their denominator per candle
@@ -766,7 +794,7 @@ def fam_hexital(rng, pid, count, twins=("standalone",)):
             sc["clause_props"] = {"exc": ["C08"], "stage": ["C08"], "def": ["C08"], "value": ["C08"]}
         else:
             sc["clause_props"] = {"exc": [pid], "stage": [pid]}
-        if fill and sc["prog"][0][1] > 0 and any(c.timeframe and c.timeframe != base_tf for c in cfgs):
+        if fill and base_tf and sc["prog"][0][1] > 0 and any(c.timeframe and c.timeframe != base_tf for c in cfgs):
             # own scenario class: with Hexital-level gap filling the default candles a member's manager
             # is built from contain inserted candles, which a coarser member merges like trades
             sc["class"] = "hexital_fill_preloaded_timeframe"
@@ -796,7 +824,9 @@ def fam_scale(rng, pid, count, hists=(60, 300)):
         else:
             cfg = rand_cfg(rng, ALL_KINDS[t % len(ALL_KINDS)])
             sc = {"id": f"{pid}/scale/{cfg.kind}/{t}", "obj": "ind", "inds": [cfg]}
-        style = rng.choice(["walk", "mixed", "flat_then_walk", "up"])
+        style = rng.choice(["walk", "mixed", "flat_then_walk", "up", "zero_vol"])
+        if any(c.kind in ("VWMA", "VWAP", "OBV") for c in sc["inds"]) and rng.random() < 0.6:
+            style = "zero_vol"
         st = make_stream(rng, max(hists) + 1, style)
         # the measured candle is the same at both history lengths: put it at both positions
         last = st[-1]
@@ -845,7 +875,11 @@ def fam_work(rng, pid, count):
             cfg = rand_cfg(rng, kinds[t % len(kinds)], tf=tf)
             sc = {"id": f"{pid}/{cfg.kind}/{t}", "obj": "ind", "inds": [cfg]}
         regular = tf_regular(rng, tf) if tf else None
-        sc.update({"fam": "work", "stream": make_stream(rng, n, style, tf=tf, regular=regular), "twins": [],
+        stw = make_stream(rng, n, style, tf=tf, regular=regular)
+        volkind = any(c.kind in ("VWMA", "VWAP", "OBV") for c in sc["inds"])
+        if t % 5 == 2 or (volkind and rng.random() < 0.6):       # the appended candles trade no volume
+            stw = stw[:hist - 3] + [x[:5] + (0,) for x in stw[hist - 3:]]
+        sc.update({"fam": "work", "stream": stw, "twins": [],
                    "work": True,
                    "prog": [("new", hist), ("calculate", "")] + [("append", hist + i, hist + i) for i in range(1, 7)],
                    "clause_props": {"work": ["C07"], "exc": ["C07"]}})
